@@ -458,26 +458,39 @@ def verify_unit(name, timeout=600, rlimit=None, known=()):
     # second run: the known-finding clauses on their own
     res.known_checked = {}
     if known:
-        p2, _ = write_unit(unit, name + '_findings.rs', blank=clause_ranges(clauses, known, invert_for_fns=True))
-        r2 = run_verus(p2, timeout=timeout, rlimit=rlimit)
-        base2 = os.path.basename(p2)
+        # one run per known clause (all the others of its function blanked): several failing postconditions in one query
+        # make the solver run out of resources instead of failing cleanly
         for n in known:
             res.status[n] = 'unknown'
             res.known_checked[n] = 'no-longer-fails'
-        for d in r2['diags']:
-            if d.get('level') != 'error' or classify(d.get('message', '')) != 'ensures':
-                continue
-            spans = d.get('spans', [])
-            for ch in d.get('children', []):
-                spans = spans + ch.get('spans', [])
-            ours = [sp for sp in spans if os.path.basename(sp.get('file_name', '')) == base2]
-            for c in clauses:
-                if c.name() in known and any(c.start <= sp['line_start'] <= c.end for sp in ours):
-                    ex = [sp for sp in ours if not (c.start <= sp['line_start'] <= c.end)]
+        for kn in sorted(known):
+            kc = next(c for c in clauses if c.name() == kn)
+            others = [(c.start, c.end) for c in clauses if c.fn == kc.fn and c.kind == 'ensures' and not c.loop and c.name() != kn]
+            p2, _ = write_unit(unit, name + '_findings.rs', blank=others)
+            r2 = run_verus(p2, timeout=timeout, rlimit=rlimit)
+            base2 = os.path.basename(p2)
+            resource2 = False
+            for d in r2['diags']:
+                if d.get('level') != 'error':
+                    continue
+                k2 = classify(d.get('message', ''))
+                spans = d.get('spans', [])
+                for ch in d.get('children', []):
+                    spans = spans + ch.get('spans', [])
+                ours = [sp for sp in spans if os.path.basename(sp.get('file_name', '')) == base2]
+                if k2 == 'resource' and any(any(f['name'] == kc.fn and f['start'] <= sp['line_start'] <= f['end'] for f in fns) for sp in ours):
+                    resource2 = True
+                if k2 != 'ensures':
+                    continue
+                if any(kc.start <= sp['line_start'] <= kc.end for sp in ours):
+                    ex = [sp for sp in ours if not (kc.start <= sp['line_start'] <= kc.end)]
                     site = norm(unit.lines[ex[0]['line_start'] - 1].text) if ex and unit.origin(ex[0]['line_start'])[0] in ('S', 'S+T') else ''
-                    res.failures.append(Failure(c.name(), 'ensures', d.get('message', ''), site, d.get('rendered', '')[:4000], c.fn))
-                    res.status[c.name()] = 'failed'
-                    res.known_checked[c.name()] = 'fails'
+                    res.failures.append(Failure(kc.name(), 'ensures', d.get('message', ''), site, d.get('rendered', '')[:4000], kc.fn))
+                    res.status[kc.name()] = 'failed'
+                    res.known_checked[kc.name()] = 'fails'
+            if res.known_checked[kn] != 'fails' and resource2:
+                res.known_checked[kn] = 'undecided'
+                res.undecided.append(dict(reason='resource', message='known-finding clause %s: the solver ran out of resources instead of refuting it' % kn, rendered=''))
     return res
 
 
